@@ -85,6 +85,7 @@ void vs_cv_notify_all(int cv);
 
 void vs_atomic_point(const void* addr, int is_load);
 void vs_atomic_loaded(const void* addr, uint64_t val);
+void vs_atomic_written(void); /* after an atomic store / read-modify-write (post-release scheduling point) */
 void vs_yield(void);
 void vs_sched_point(void); /* generic scheduling point */
 
